@@ -521,6 +521,43 @@ fn run(v: &Value) -> Result<String, String> {
             }
             Ok(log.join(" "))
         }
+        "fleet_tag_sweep" => {
+            // Bounded stand-in for C19's broadcast clause: 6 nodes over the tag alphabet {a,b,c}, all 8 request
+            // subsets; a broadcast must address exactly the nodes carrying ALL requested tags and return one
+            // result per addressed node; filter_nodes must agree. Nodes are unreachable (refused), which does not
+            // matter: the addressed set is the key set of the result map.
+            use std::collections::BTreeSet;
+            use std::time::Duration;
+            let node_tags: Vec<Vec<&str>> = vec![vec![], vec!["a"], vec!["a", "b"], vec!["a", "b", "c"], vec!["b", "c"], vec!["c"]];
+            let mut cfgs = Vec::new();
+            for (i, t) in node_tags.iter().enumerate() {
+                // port 1 on localhost: connection refused at once
+                cfgs.push(repe::NodeConfig::new("127.0.0.1", 1).unwrap().with_name(format!("n{i}")).unwrap()
+                    .with_tags(t.iter().map(|s| s.to_string())).with_timeout(Duration::from_millis(200)).unwrap());
+            }
+            let opts = repe::FleetOptions { retry_policy: repe::RetryPolicy { max_attempts: 1, delay: Duration::from_millis(0) }, ..Default::default() };
+            let fleet = repe::Fleet::with_options(cfgs.clone(), opts).map_err(|e| e.to_string())?;
+            let afleet = repe::AsyncFleet::with_options(cfgs, opts).map_err(|e| e.to_string())?;
+            let rt = tokio::runtime::Builder::new_multi_thread().worker_threads(2).enable_all().build().unwrap();
+            let alphabet = ["a", "b", "c"];
+            let mut n = 0;
+            for mask in 0u8..8 {
+                let req: Vec<&str> = (0..3).filter(|b| mask & (1 << b) != 0).map(|b| alphabet[b]).collect();
+                let expect: BTreeSet<String> = node_tags.iter().enumerate()
+                    .filter(|(_, t)| req.iter().all(|r| t.contains(r))).map(|(i, _)| format!("n{i}")).collect();
+                let got: BTreeSet<String> = fleet.broadcast_json("/x", None, &req).keys().cloned().collect();
+                let filt: BTreeSet<String> = fleet.filter_nodes(&req).into_iter().map(|n| n.name).collect();
+                let agot: BTreeSet<String> = rt.block_on(afleet.broadcast_json("/x", None, &req)).keys().cloned().collect();
+                let afilt: BTreeSet<String> = rt.block_on(afleet.filter_nodes(&req)).into_iter().map(|n| n.name).collect();
+                for (what, set) in [("Fleet::broadcast_json", &got), ("Fleet::filter_nodes", &filt), ("AsyncFleet::broadcast_json", &agot), ("AsyncFleet::filter_nodes", &afilt)] {
+                    if *set != expect {
+                        return Err(format!("{what} with tags {req:?} addressed {set:?}, expected exactly {expect:?}"));
+                    }
+                }
+                n += 1;
+            }
+            Ok(format!("{n} tag subsets x 4 entry points held"))
+        }
         other => panic!("unknown replay entry `{other}`"),
     }
 }
